@@ -165,3 +165,13 @@ prop(
     level_text="In generated sync histories with registered scripts and outstanding fetch requests, every adversarial answer - right header with a substituted body (output edited, transaction added / removed, body of another block, witness or extension edited), unrequested blocks, headers outside the request / forged / duplicated, found reported as missing, altered proof items, proofs against an unproven last header, forged Merkle lemmas / indices / witnesses roots, replaced transactions - leaves the Cell*, Tx*, TxHash, BlockHash and BlockNumber keyspaces unchanged, and at the end every stored transaction and header is one of the chain.",
     level_note="bodies colliding on transactions_root are out of scope (hash collision)",
 )
+
+prop(
+    "C07", "exploration",
+    rule="one evaluation = one delivered BlockFilterCheckPoints message or one refresh tick judged against the reference quorum rule evaluated on the snapshot of proven peers' vectors taken just before the tick; "
+         "a cell = (message shape, honest/deviating sender, kept/banned) / (advance or not, quorum, supporters, deviators)",
+    sizes=tiers(16, 400, 60, 16, 30000, 900, min_evals=8000, min_cells=40),
+    technique="runtime monitoring: online monotonicity / immutability check of the CheckPointIndex keyspace, reference quorum rule over snapshots of get_all_proved_check_points(), expected-progress rule, ban monitor",
+    level_text="For generated configurations (max outbound 1..8, 1..10 proven peers, honest vectors and vectors deviating from some index on, short / overlapping / gapped / unaligned / one-off-lie messages, all orders of messages and refresh ticks) the final index never decreases, final values are never rewritten, every advance is backed by at least ceil(max_outbound/2) proven peers agreeing on every new index, fewer deviators than the quorum neither finalize a wrong value nor block agreement among at least a quorum of honest peers, and a peer contradicting the final value is banned at the tick that judges it.",
+    level_note="peers are brought to the proven state with the cfg(test) helper mock_prove_state (the real handshake is exercised by C05); check point values come from the generated chain's filter hashes",
+)
